@@ -1034,6 +1034,9 @@ impl RequestResponseProtocol {
         tracing::debug!(target: LOG_TARGET, "starting request-response event loop");
 
         loop {
+            #[cfg(feature = "verif")]
+            verif::publish(&self);
+
             tokio::select! {
                 // events coming from the network have higher priority than user commands as all user commands are
                 // responses to network behaviour so ensure that the commands operate on the most up to date information.
